@@ -35,6 +35,31 @@ fn main() {
 			}
 		}
 		"explore-c15" => iref_verif::props::c15::explore(),
+		"fuzz-seeds" => {
+			// iref-verif fuzz-seeds <Cxx> <dir>: writes the seed corpus for the coverage-guided tier
+			if args.len() < 4 {
+				usage()
+			}
+			let dir = std::path::Path::new(&args[3]);
+			let _ = std::fs::create_dir_all(dir);
+			for (i, s) in iref_verif::fuzzdec::seeds(&args[2]).iter().enumerate() {
+				let _ = std::fs::write(dir.join(format!("golden{i:02}")), s);
+			}
+		}
+		"fuzz-replay" => {
+			// iref-verif fuzz-replay <Cxx> <artifact>: judges one raw fuzz input outside the fuzzer
+			if args.len() < 4 {
+				usage()
+			}
+			let data = std::fs::read(&args[3]).unwrap_or_default();
+			match iref_verif::fuzz_one(&args[2], &data) {
+				Some(p) => {
+					println!("VIOLATION property={} replay={}", args[2], p);
+					std::process::exit(1)
+				}
+				None => println!("PASS"),
+			}
+		}
 		"replay" => {
 			if args.len() < 3 {
 				usage()
